@@ -129,6 +129,33 @@ def repeated_header_lines(s0: int, n0: int) -> bool:
     return FIN(ok)
 
 
+def repeated_tags(s0: int, n0: int) -> bool:
+    """
+    pre: s0 >= 1 and n0 >= 1
+    post: _
+    """
+    # a fragment row may carry the same tag more than once (extra AGP columns are free text): canonical text
+    # with a repeated tag must parse to exactly those tags and re-format byte for byte
+    START()
+    want = {0: ("Painted", "Hap1", "Painted"), 1: ("Cut", "Cut"), 2: ("x", "Unloc", "Unloc", "x")}
+    asm = build([("scf", "FGFGF")], [(s0, n0), (7,), (s0, n0), (9,), (3, 4)], [1, -1, 0], tags=False)
+    k = 0
+    for r in asm.scaffolds[0].rows:
+        if is_frag(r):
+            r._tags = want[k]          # the object state the parser must produce (set past the constructor)
+            k += 1
+    canon = own_agp(asm)
+    back = p_agp(canon)
+    got = [r.tags for r in back.scaffolds[0].rows if is_frag(r)]
+    ok = AND(got == [want[0], want[1], want[2]], text_eq(fmt_agp(back), canon))
+    # and through the constructor + writer
+    rows = [Fragment("ctg0", s0, s0 + n0 - 1, 1, want[0]), Gap(7, "scaffold"), Fragment("ctg2", 3, 6, -1, want[2])]
+    a2 = Assembly("asm", scaffolds=[Scaffold("scf", rows)])
+    b2 = p_agp(fmt_agp(a2))
+    got2 = [r.tags for r in b2.scaffolds[0].rows if is_frag(r)]
+    return FIN(AND(ok, got2 == [want[0], want[2]]))
+
+
 def count_rows(asm):
     return sum(len(s.rows) for s in asm.scaffolds)
 
@@ -348,6 +375,7 @@ def {fn}(x: str) -> bool:
 ''')
         metas.append((nm, fn, 900, bound))
     metas.append(("repeated_header_lines", "repeated_header_lines", 300, "header with the same line text twice (separator and description repeated), AGP and TPF, coordinates unbounded"))
+    metas.append(("repeated_tags", "repeated_tags", 600, "AGP fragment rows carrying the same tag twice (Painted Hap1 Painted / Cut Cut / x Unloc Unloc x): parsed tags == file columns, parse->format byte for byte; coordinates unbounded"))
     for nm, to, bound in (("agp_line_corruption", 900, "a column (symbolic index 0..9) deleted from a symbolic line of a canonical 3-line AGP: parsed rows == data lines, or an exception"),
                           ("tpf_line_corruption", 900, "the same for TPF (columns 0..4)"),
                           ("agp_bad_strand", 600, "AGP orientation column = symbolic string of <= 2 code points: error, or exactly the legal symbol kept"),
